@@ -1,11 +1,14 @@
-"""Machine-level cross-check for C01 divergences.
+"""Machine-level leakage traces for C01 (valgrind lackey on the uninstrumented optimised build).
 
-The SanitizerCoverage recorder observes the *optimised IR*; the x86 back end may still turn an IR branch
-into a conditional move (or the reverse).  Before a C01 divergence is reported, the two runs are repeated in
-the same crate built with the same options but WITHOUT instrumentation, under `valgrind --tool=lackey
---trace-mem=yes`, and the sequences of executed instruction addresses and data addresses between the two
-marker functions are compared.  Only a divergence that also exists there is reported; one that does not is
-logged as IR-only and recorded in the evidence (it is not a violation of the property on this target).
+The SanitizerCoverage recorder observes the *optimised IR*; the x86 back end may still turn an IR branch into a
+conditional move, or an IR select into a branch.  This module runs the same crate, built with the same options
+but WITHOUT instrumentation, under `valgrind --tool=lackey --trace-mem=yes` and extracts, for each run of an
+operation, the sequence of executed instruction addresses and of data addresses read/written between two
+marker functions.  One process executes several secrets of one class (operation + public parameters), so the
+compared regions share the process image, stack and arena layout.
+  * cross-check: an IR-level divergence is reported only if the machine-level traces differ as well;
+  * sweep: machine-level traces of every class are compared directly (covers back-end select-to-branch
+    conversions the IR does not show).
 """
 import hashlib, os, subprocess
 import vcheck
@@ -14,6 +17,7 @@ LEAK = os.path.join(vcheck.VERIF, "leak")
 PLAIN_DIR = os.path.join(vcheck.WORK, "target-leak-plain")
 PLAIN = os.path.join(PLAIN_DIR, "x86_64-unknown-linux-gnu", "release", "vleak")
 PLAIN_FLAGS = "--cfg crypto_bigint_verif --check-cfg cfg(crypto_bigint_verif) -Cforce-frame-pointers=yes -Crelocation-model=static -Ctarget-feature=+crt-static"
+CAP = 300_000          # entries kept per region for locating the first difference (the digest covers everything)
 
 
 def build_plain():
@@ -24,55 +28,126 @@ def build_plain():
     return sym["lk_marker_begin"], sym["lk_marker_end"]
 
 
-def machine_trace(cls, si, seed, nsec, markers, cap=4_000_000):
-    """(digest, n_instr, n_data, entries[:cap]) of the region between the markers for one run"""
+_BT = None
+
+
+def bt_register_forms():
+    """addresses of bt/btr/bts/btc instructions with a REGISTER destination: valgrind's VEX emulates them through a
+    scratch slot below the stack pointer whose byte offset is bit_index/8, i.e. it reports data accesses the
+    hardware does not make; those entries are dropped."""
+    global _BT
+    if _BT is None:
+        out = subprocess.run(["objdump", "-d", "--no-show-raw-insn", PLAIN], capture_output=True, text=True).stdout
+        _BT = set()
+        for line in out.splitlines():
+            parts = line.split("\t")
+            if len(parts) >= 2 and parts[1].split(" ")[0] in ("bt", "btr", "bts", "btc") and "(" not in parts[1]:
+                try:
+                    _BT.add(int(parts[0].strip().rstrip(":"), 16))
+                except ValueError:
+                    pass
+    return _BT
+
+
+def machine_traces(cls, sis, seed, nsec, markers):
+    """one process, the secrets `sis` (ascending) of class `cls`: -> {si: (digest, n_instr, n_data, entries[:CAP])}"""
     begin, end = markers
+    sis = sorted(set(sis))
     rfd, wfd = os.pipe()
     p = subprocess.Popen(["valgrind", "--tool=lackey", "--trace-mem=yes", "--log-fd=%d" % wfd, PLAIN,
-                          "--one", cls, "%06d" % si, "--seed", "%012d" % seed, "--secrets", "%06d" % nsec],
+                          "--one", cls, ",".join(str(x) for x in sis), "--seed", str(seed), "--secrets", str(nsec)],
                          pass_fds=(wfd,), stdout=subprocess.DEVNULL, stderr=subprocess.DEVNULL,
                          env={"PATH": os.environ.get("PATH", "/usr/bin:/bin")})
     os.close(wfd)
-    h = hashlib.sha256()
-    on, ni, nd, ent = False, 0, 0, []
     bpre, epre = "I  %08x," % begin, "I  %08x," % end
+    regions = []
+    on = False
+    bt = bt_register_forms()
+    skip = False
     with os.fdopen(rfd, "r", errors="replace") as fh:
         for line in fh:
             if not on:
                 if line.startswith(bpre):
-                    on = True
+                    on, h, ni, nd, ent = True, hashlib.sha256(), 0, 0, []
                 continue
             if line.startswith(epre):
                 on = False
-                break
+                regions.append((h.hexdigest(), ni, nd, ent))
+                continue
             c = line[:2]
             if c == "I ":
                 ni += 1
+                key = line[:line.index(",")]
+                skip = int(key[3:], 16) in bt
             elif c in (" L", " S", " M"):
+                if skip:
+                    continue
                 nd += 1
+                key = line[:line.index(",")]
             else:
                 continue
-            key = line.split(",")[0]
             h.update(key.encode())
-            if len(ent) < cap:
+            if len(ent) < CAP:
                 ent.append(key)
-        for _ in fh:      # drain
-            pass
     p.wait()
-    return h.hexdigest(), ni, nd, ent
+    if len(regions) != len(sis):
+        raise vcheck.ToolError("lackey: %d marker regions for %d secrets of %s" % (len(regions), len(sis), cls))
+    return dict(zip(sis, regions))
+
+
+def first_diff(a, b):
+    if a[0] == b[0]:
+        return None
+    k, n = 0, min(len(a[3]), len(b[3]))
+    while k < n and a[3][k] == b[3][k]:
+        k += 1
+    ea = a[3][k].strip() if k < len(a[3]) else "<end or beyond %d entries>" % CAP
+    eb = b[3][k].strip() if k < len(b[3]) else "<end or beyond %d entries>" % CAP
+
+    def instr(ent, j):              # the instruction executing at entry j (a data entry belongs to the instruction before it)
+        j = min(j, len(ent) - 1)
+        while j >= 0 and not ent[j].startswith("I"):
+            j -= 1
+        return int(ent[j].split()[1], 16) if j >= 0 else 0
+    return (k, ea, eb, instr(a[3], k - 1), instr(b[3], k))       # [3]: the last common instruction (the branch / the accessing instruction); [4]: where the second run went
 
 
 def compare(cls, si_a, si_b, seed, nsec, markers):
-    """-> dict(differs, n_instr=[a,b], first=(index, a_entry, b_entry) | None)"""
-    a = machine_trace(cls, si_a, seed, nsec, markers)
-    b = machine_trace(cls, si_b, seed, nsec, markers)
-    if a[1] == 0 or b[1] == 0:
-        raise vcheck.ToolError("lackey: marker region not found for %s (%d/%d instructions)" % (cls, a[1], b[1]))
-    first = None
-    if a[0] != b[0]:
-        k = 0
-        n = min(len(a[3]), len(b[3]))
-        while k < n and a[3][k] == b[3][k]:
-            k += 1
-        first = (k, a[3][k].strip() if k < len(a[3]) else "<end>", b[3][k].strip() if k < len(b[3]) else "<end>")
-    return dict(differs=a[0] != b[0], n_instr=[a[1], b[1]], n_data=[a[2], b[2]], first=first)
+    """-> dict(differs, n_instr=[a,b], n_data=[a,b], first=(index, a_entry, b_entry) | None)"""
+    t = machine_traces(cls, [si_a, si_b], seed, nsec, markers)
+    a, b = t[si_a], t[si_b]
+    return dict(differs=a[0] != b[0], n_instr=[a[1], b[1]], n_data=[a[2], b[2]], first=first_diff(a, b))
+
+
+def sweep_class(cls, sis, seed, nsec, markers):
+    """compare every secret of `sis` with the first: -> dict(cls, n, n_instr, divergent=[(si, first_diff)])"""
+    t = machine_traces(cls, sis, seed, nsec, markers)
+    sis = sorted(t)
+    base = t[sis[0]]
+    div = []
+    for si in sis[1:]:
+        d = first_diff(base, t[si])
+        if d:
+            div.append(dict(si=si, first=d, n_instr=[base[1], t[si][1]]))
+    return dict(cls=cls, secrets=len(sis), n_instr=base[1], n_data=base[2], divergent=div)
+
+
+def symbolise(addrs):
+    """addresses in the uninstrumented binary -> inline stacks [(function, location)] (innermost first)"""
+    if not addrs:
+        return {}
+    out = subprocess.run(["llvm-symbolizer-14", "--obj=" + PLAIN, "--inlines", "--functions=short"] + [hex(a) for a in addrs],
+                         capture_output=True, text=True).stdout
+    res, cur, blocks = {}, [], []
+    for line in out.split("\n"):
+        if line.strip() == "":
+            if cur:
+                blocks.append(cur)
+            cur = []
+        else:
+            cur.append(line)
+    if cur:
+        blocks.append(cur)
+    for a, b in zip(addrs, blocks):
+        res[a] = [(b[i], b[i + 1]) for i in range(0, len(b) - 1, 2)]
+    return res
